@@ -67,6 +67,7 @@ public:
     virtual void execute(const Plan &plan, Run &run) = 0;
     // simpler variants of one op, tried during minimisation
     virtual void shrinkOp(const Op &op, std::vector<Op> &out) { (void)op; (void)out; }
+    virtual int recheckEvery() { return 40; }   // every Nth run of a worker is executed twice in-process and compared
     virtual int quickRuns() { return 3000; }
     virtual int quickSeconds() { return 75; }       // hard cap for the quick tier
     virtual int thoroughSeconds() { return 600; }
@@ -83,14 +84,17 @@ public:
 
 // ---------------------------------------------------------------------------------------
 static std::string g_root = "/verif";
+static thread_local volatile int g_curOpKindTL = -1;
 static volatile int g_curOpKind = -1;
 static volatile int g_curOpIndex = -1;
+static bool g_threadedRun = false;   // simulated caller threads must not touch the process-wide markers
 static Check *g_check = NULL;
 
 static Run *g_curRun = NULL;
 static std::vector<uint64_t> *g_trace = NULL;
 static inline void noteOp(int index, int kind)
 {
+    if(g_threadedRun) { g_curOpKindTL = kind; return; }
     g_curOpIndex = index; g_curOpKind = kind;
     if(g_trace && g_curRun) g_trace->push_back(g_curRun->log.h);
 }
@@ -483,6 +487,16 @@ static void workerLoop(Check &c, int wfd, uint64_t baseSeed, bool thorough, uint
         for(std::map<std::string, uint64_t>::iterator it = run.counters.begin(); it != run.counters.end(); ++it) counters[it->first] += it->second;
         for(std::set<uint64_t>::iterator it = run.states.begin(); it != run.states.end(); ++it)
             if(seen.size() < 2000000 && seen.insert(*it).second) fresh.push_back(*it);
+        // continuous determinism proof: re-execute every Nth run in-process and compare the log (and the violation class, if any)
+        if((idx / stride) % (uint64_t)c.recheckEvery() == (uint64_t)c.recheckEvery() / 5)
+        {
+            armWatchdog(c.cpuBudgetSec());
+            Run again; c.execute(plan, again);
+            disarmWatchdog();
+            bool same = again.v.set == run.v.set && again.log.h == run.log.h && (!run.v.set || (again.v.tag == run.v.tag && again.v.sig == run.v.sig));
+            if(!same) { snprintf(line, sizeof line, "M %llu\n", (unsigned long long)idx); safeWrite(wfd, line); }
+            else counters["_determinism_rechecks"] += 1;
+        }
         if(run.v.set)
         {
             std::string s = "V " + std::to_string(idx) + " " + run.v.tag + "\x1f" + run.v.sig + "\x1f" + run.v.detail;
@@ -491,18 +505,6 @@ static void workerLoop(Check &c, int wfd, uint64_t baseSeed, bool thorough, uint
         }
         else
         {
-            // continuous determinism proof: re-execute every 40th clean run in-process and compare logs
-            if((idx / stride) % 40 == 7)
-            {
-                armWatchdog(c.cpuBudgetSec());
-                Run again; c.execute(plan, again);
-                disarmWatchdog();
-                if(again.v.set || again.log.h != run.log.h)
-                {
-                    snprintf(line, sizeof line, "M %llu\n", (unsigned long long)idx); safeWrite(wfd, line);
-                }
-                else counters["_determinism_rechecks"] += 1;
-            }
             snprintf(line, sizeof line, "D %llu %llu\n", (unsigned long long)idx, (unsigned long long)run.log.h); safeWrite(wfd, line);
         }
         if(++sinceFlush >= 32)
@@ -595,7 +597,7 @@ static int driverMain(Check &c, int argc, char **argv)
         // re-create a worker's process history: run indices start, start+stride, ... < idx, then idx twice with traces
         uint64_t start = strtoull(argv[2], NULL, 10), stride = strtoull(argv[3], NULL, 10), idx = strtoull(argv[4], NULL, 10);
         bool th = argc > 5 && std::string(argv[5]) == "thorough";
-        for(uint64_t i = start; i < idx; i += stride) { Plan p; makePlan(c, baseSeed, i, th, p); Run run; c.execute(p, run); if((i / stride) % 40 == 7 && !run.v.set) { Run again; c.execute(p, again); } }
+        for(uint64_t i = start; i < idx; i += stride) { Plan p; makePlan(c, baseSeed, i, th, p); Run run; c.execute(p, run); if((i / stride) % (uint64_t)c.recheckEvery() == (uint64_t)c.recheckEvery() / 5) { Run again; c.execute(p, again); } }
         Plan plan; makePlan(c, baseSeed, idx, th, plan);
         std::vector<uint64_t> t1, t2;
         { Run run; g_curRun = &run; g_trace = &t1; c.execute(plan, run); t1.push_back(run.log.h); }
@@ -856,7 +858,9 @@ static int driverMain(Check &c, int argc, char **argv)
         { bool f = true; for(std::map<std::string, ClassInfo>::iterator it = classes.begin(); it != classes.end(); ++it) {
             js << (f ? "" : ", ") << "{\"class\": \"" << jsonEscape(it->first) << "\", \"runs\": " << it->second.count << ", \"known\": " << (it->second.known ? "true" : "false")
                << ", \"replay\": \"" << jsonEscape(it->second.replay) << "\", \"ops_before\": " << it->second.origOps << ", \"ops_after\": " << it->second.minOps << "}"; f = false; } }
-        js << "],\n  \"technique\": \"" << jsonEscape(c.technique()) << "\"" << c.extraCoverageJson() << "\n },\n";
+        js << "],\n  \"technique\": \"" << jsonEscape(c.technique()) << "\"" << c.extraCoverageJson();
+        if(getenv("VERIF_EVIDENCE_PREV")) { std::string prev; if(readFile(getenv("VERIF_EVIDENCE_PREV"), prev) && prev.find('{') != std::string::npos) js << ",\n  \"previous_phase\": " << prev; }
+        js << "\n },\n";
         js << " \"assumptions\": [";
         { std::vector<std::string> v = c.assumptions(); for(size_t i = 0; i < v.size(); ++i) js << (i ? ", " : "") << "\"" << jsonEscape(v[i]) << "\""; }
         js << "],\n \"wall_s\": " << wall << ",\n \"violations\": " << nviol << ",\n \"known_findings_hit\": " << nknown << "\n}\n";
